@@ -58,6 +58,26 @@ POOL = [
     "R1CC1", "R1CCC1", "CCOCC", "RCOCR", "RCCCR", "RCRCR", "CS(=O)C", "CS(=O)(=O)C", "RS(=O)(=O)R", "RSSR", "CSC",
     "RC(=O)SR", "NC(=O)N", "ROC(=O)OR", "C=C=O", "RC(R)=C=O",
 ]
+# patterns mixing lower-case (aromatic) and upper-case symbols: under the documented default mapper (ignore_case=True)
+# upper-case patterns with ':' bonds lie below the lower-case ones; a case-sensitive mapper sees no relation
+IC_POOL = ["C:C", "Rc", "ccc", "C:CO", "ccN", "cc(O)c", "C:C:C", "cccO", "c1ccccc1", "C:CN(R)R", "c1ccccc1O", "ccOC", "C:C(:C)N",
+           "ccS", "RC:C", "c1ccncc1", "nc", "C:N", "co", "C:O"]
+
+
+def chain_pool(max_heavy=4, alphabet="CO"):
+    """all R-prefixed chains over the alphabet with 1..max_heavy heavy atoms: RC, RO, RCC, RCO, ..."""
+    import itertools
+    out = []
+    for k in range(1, max_heavy + 1):
+        for t in itertools.product(alphabet, repeat=k):
+            out.append("R" + "".join(t))
+    return out
+
+
+def named(pats, prefix="g"):
+    return [{"name": "%s%d_%s" % (prefix, i, p), "pattern": p} for i, p in enumerate(pats)]
+
+
 # small patterns that are useful as anti-patterns
 ANTI_POOL = ["CC(O)O", "RC(=O)R", "C=O", "COH", "CCC", "C1CC1", "RC(=O)O", "OO", "CN", "RCO", "C(O)O", "RC(=O)OR", "CCl"]
 
@@ -141,11 +161,14 @@ def _free(g, n):
     return _VAL.get(g.nodes[n]["symbol"], 0) - used
 
 
-def rand_molecule(rng, max_heavy=14):
+AROMATIC_FRAGMENTS = ["c1ccccc1", "c1ccncc1", "c1ccoc1", "c1ccccc1O", "c1ccccc1N"]
+
+
+def rand_molecule(rng, max_heavy=14, first=None):
     """glue FG-rich fragments by single (rarely double) bonds, sometimes close a ring, sometimes
     write some hydrogens explicitly"""
-    g = _frag(rng.choice(FRAGMENTS))
-    target = rng.randint(1, max_heavy)
+    g = _frag(first if first is not None else rng.choice(FRAGMENTS))
+    target = rng.randint(max(1, len(g)), max(max_heavy, len(g)))
     tries = 0
     while len(g) < target and tries < 12:
         tries += 1
@@ -248,7 +271,14 @@ def run_tree(specs, via="build", default=False):
                 dicts.append(d)
             roots = FGConfigProvider(dicts).get_tree()
         elif via == "provider":
+            # no mapper argument: the provider's documented fallback PermutationMapper(wildcard="R", ignore_case=True)
             roots = FGConfigProvider(make_configs(specs)).get_tree()
+        elif via == "provider-mapper":
+            roots = FGConfigProvider(make_configs(specs), mapper=PermutationMapper(wildcard="R", ignore_case=True)).get_tree()
+        elif via == "query":
+            # the tree an FGQuery builds for a list: FGQuery hands ITS mapper to the provider
+            from fgutils.query import FGQuery
+            roots = FGQuery(config=make_configs(specs)).config_provider.get_tree()
         else:
             roots = build_config_tree_from_list(make_configs(specs), PermutationMapper(wildcard="R", ignore_case=True))
         return ("ok", tree_view(roots))
@@ -273,6 +303,76 @@ def run_query(specs, req_h, graph, repeats=1):
         except (AssertionError, KeyError, IndexError, ValueError, TypeError) as e:
             outs.append(_exc(e))
     return outs
+
+
+QUERY_VIAS = ["query-list", "query-mapper", "query-provider", "query-provider-mapper"]
+
+
+def make_query(specs, req_h, via="query-list"):
+    """an FGQuery for a configuration list through one of the public construction paths; all of them mean: this
+    configuration, default mapper PermutationMapper(wildcard='R', ignore_case=True)"""
+    from fgutils.query import FGQuery
+    from fgutils.fgconfig import FGConfigProvider
+    from fgutils.permutation import PermutationMapper
+    if specs is None:
+        return FGQuery(require_implicit_hydrogen=req_h)
+    cfgs = make_configs(specs)
+    if via == "query-mapper":
+        return FGQuery(mapper=PermutationMapper(wildcard="R", ignore_case=True), config=cfgs, require_implicit_hydrogen=req_h)
+    if via == "query-provider":
+        return FGQuery(config=FGConfigProvider(cfgs), require_implicit_hydrogen=req_h)           # provider's fallback mapper
+    if via == "query-provider-mapper":
+        return FGQuery(config=FGConfigProvider(cfgs, mapper=PermutationMapper(wildcard="R", ignore_case=True)),
+                       require_implicit_hydrogen=req_h)
+    return FGQuery(config=cfgs, require_implicit_hydrogen=req_h)
+
+
+def run_steps(steps):
+    """within THIS interpreter: for every step a fresh FGQuery (fresh provider, fresh FGConfig objects) for the step's
+    configuration, one get() on the step's molecule.  -> (list of answers, some argument graph was modified)"""
+    outs, mutated = [], False
+    for st in steps:
+        g = gens.copy_exact(st["graph"])
+        try:
+            q = make_query(st["specs"], st["req_h"], st.get("via", "query-list"))
+            r = q.get(g)
+            outs.append(("ok", [(n, [int(i) for i in ids]) for n, ids in r]))
+        except (AssertionError, KeyError, IndexError, ValueError, TypeError) as e:
+            outs.append(_exc(e))
+        mutated = mutated or not gens.graphs_identical(g, st["graph"])
+    return outs, mutated
+
+
+def same_names_variant(rng, specs):
+    """a configuration list with the SAME names in the same order but other patterns / group_atoms / anti-patterns"""
+    from fgutils.parse import parse
+    pats = [s["pattern"] for s in specs]
+    mode = rng.choice(["rotate", "swap", "replace", "attrs"])
+    if mode == "rotate" and len(pats) > 1:
+        k = rng.randrange(1, len(pats))
+        pats = pats[k:] + pats[:k]
+    elif mode == "swap" and len(pats) > 1:
+        i, j = rng.sample(range(len(pats)), 2)
+        pats[i], pats[j] = pats[j], pats[i]
+    elif mode == "replace":
+        for i in rng.sample(range(len(pats)), rng.randint(1, len(pats))):
+            cand = [p for p in POOL if p not in pats]
+            pats[i] = rng.choice(cand)
+    out = []
+    for s, p in zip(specs, pats):
+        t = {"name": s["name"], "pattern": p}
+        n = len(parse(p))
+        if p == s["pattern"] and mode != "attrs":
+            for k in ("group_atoms", "anti_pattern"):
+                if k in s:
+                    t[k] = list(s[k])
+        else:
+            if rng.random() < 0.5:
+                t["group_atoms"] = sorted(rng.sample(range(n), rng.randint(1, n)))
+            if rng.random() < 0.2:
+                t["anti_pattern"] = rng.sample(ANTI_POOL, 1)
+        out.append(t)
+    return out
 
 
 # ------------------------------------------------------------------------------------------
